@@ -447,7 +447,7 @@ var opOpEqTokens = map[byte]TokenType{
 func (l *Lexer) consumeOperatorToken() TokenType {
 	c := l.r.Peek(0)
 	l.r.Move(1)
-	if l.r.Peek(0) == '=' {
+	if l.r.Peek(0) == '=' && c != '~' && c != '?' {
 		l.r.Move(1)
 		if l.r.Peek(0) == '=' && (c == '!' || c == '=') {
 			l.r.Move(1)
